@@ -20,7 +20,7 @@
 From SV Require Import Model.Rows Model.Chunk Model.PluginIter
      Proof.PluginIterProof Proof.PluginIterRound Proof.PluginIterLoop Proof.PluginIterSafety
      Proof.PluginIterStair Proof.PluginIterTotal Proof.PluginIterTotal2 Proof.PluginIterTotal3
-     Proof.PluginIterRefuted.
+     Proof.PluginIterRefuted Proof.PluginIterExhaust.
 
 Theorem C08_iter_calls_aligned : forall run sw a deps specs,
   deps <> [] -> Forall2 (dep_ok run a) deps specs ->
@@ -87,6 +87,15 @@ Theorem C08_iter_total_below_pass_limit : forall run sw a b deps specs,
   forall i d, nth_error deps i = Some d -> delivered i (fst (plugin_iter sw deps)) = srows (snd d).
 Proof. exact iter_total_below_pass_limit_thm. Qed.
 Print Assumptions C08_iter_total_below_pass_limit.
+
+(* ExhaustPlugin: its iter is Plugin.iter on the completely concatenated dependencies, which are
+   law-abiding with the same rows, ends, data types and kinds (same specs): all theorems above apply *)
+Theorem C08_exhaust_iter_reduces : forall run sw a deps specs,
+  Forall2 (dep_ok run a) deps specs ->
+  exists ds, exhaust_deps deps = Ok ds /\ Forall2 (dep_ok run a) ds specs /\
+             exhaust_iter sw deps = plugin_iter sw ds /\ length ds = length deps.
+Proof. exact exhaust_iter_reduces. Qed.
+Print Assumptions C08_exhaust_iter_reduces.
 
 (* Two strengthenings of the totality theorem that do NOT hold of the faithful model (and, replayed by
    the harness, not of the implementation either: loud errors on law-abiding input). *)
